@@ -1,21 +1,19 @@
 /-
   C15 — Concurrent callers of one synchronous client are serialised.
-  Property theorems only; the invariants and their preservation live in Pymodbus/Lemmas/Sched.lean (lock discipline,
-  any client), Pymodbus/Lemmas/SchedConn.lean (byte level, connected client), Pymodbus/Lemmas/SchedBytes.lean.
+  Property theorems only; the invariant and its preservation live in Pymodbus/Lemmas/SchedConn.lean, common lemmas
+  (progress measure, fairness) in Pymodbus/Lemmas/Sched.lean, byte-level facts in Pymodbus/Lemmas/SchedBytes.lean.
 
   Everything is about `Sched.runSched scope (Sched.init reqs connected) sched`: ANY number of threads
   (`reqs : Nat → List Req`), ANY number of transactions per thread, ANY schedule (`sched : List Nat`, pre-emption before
-  every operation of the transaction, including between lock acquisition and `tid++`, between the two writes of a
-  frame and between the check and the open of `connect`), replies of any length and latency.
-  The lock discipline is a parameter: the theorems hold for `scope = .whole` (one re-entrant lock around the whole
-  transaction), `generated_lock_scope` says that this is what the source has, and the counterexamples show that `none`,
-  per-key locks and a send-only lock do not serialise.
-
-  PARTIAL RESULT (a defect of the real code): `BaseModbusClient.execute` calls `connect()` before the lock is taken
-  and `ModbusTcpClient.connect` is check-then-act.  Mutual exclusion, contiguous frames, one result per request and
-  absence of deadlock hold for every client (`connected` arbitrary); "every caller gets the reply to its own
-  request" holds when the client is connected before the threads start (`own_reply_partial`) and FAILS on a client
-  that is not (`connect_race_counterexample`, `C15_full_counterexample`).
+  every operation of `execute`, including between a lock acquisition and what follows, between the two writes of a
+  frame and between the check and the open of `connect`), replies of any length and latency, the client connected or
+  not when the threads start (`connected : Bool`).
+  The lock discipline is a parameter.  The theorems hold for `scope = .whole`: the client lock
+  (`with self._connect_lock:` in `BaseModbusClient.execute`, around the connect check/open AND the call of the
+  manager) with the manager lock (`with self._transaction_lock:` = body of `ModbusTransactionManager.execute`) nested
+  inside; `generated_lock_scope` says that this is what the source has.  The counterexamples show that the other
+  disciplines do not serialise: `connectOutside` (the code before the repair of finding connect-outside-lock: connect
+  before any lock is taken), `none`, one manager lock per unit id, a send-only lock.
 -/
 import Pymodbus.Lemmas.SchedConn
 import Pymodbus.Generated.Tables
@@ -24,64 +22,99 @@ open Pymodbus Pymodbus.Sched
 
 /-! ### tie to the source -/
 
-/-- read off `pymodbus/transaction.py` by `ast` on this run: the whole body of `ModbusTransactionManager.execute` is one
-    `with self._transaction_lock:`; `_transaction_lock` is assigned once, in `__init__`, to `RLock()`;
-    the attribute is mentioned nowhere else in the module (so nothing releases it early);
-    `BaseModbusClient.execute` ends in `self.transaction.execute(request)` -/
+/-- read off the source by `ast` on this run.
+    `pymodbus/transaction.py`: the whole body of `ModbusTransactionManager.execute` is one `with self._transaction_lock:`;
+    `_transaction_lock` is assigned once, in `__init__`, to `RLock()`, and mentioned nowhere else in the module.
+    `pymodbus/client/sync.py`: the whole body of `BaseModbusClient.execute` is one `with self._connect_lock:` that contains
+    both the `self.connect()` call and `return self.transaction.execute(request)`; `_connect_lock` is assigned once, in
+    `__init__`, to `RLock()`, and mentioned nowhere else in the module (so nothing releases it early). -/
 theorem generated_lock_scope :
     Generated.lockScope = "whole" ∧ Generated.lockCtor = "RLock()" ∧ Generated.lockAssignments = 1 ∧
     Generated.lockAssignedIn = "__init__" ∧ Generated.lockReferences = 2 ∧
-    Generated.clientExecuteViaManager = true := by decide
+    Generated.clientExecuteViaManager = true ∧
+    Generated.clientLockScope = "whole" ∧ Generated.clientLockCtor = "RLock()" ∧
+    Generated.clientLockAssignments = 1 ∧ Generated.clientLockAssignedIn = "__init__" ∧
+    Generated.clientLockReferences = 2 := by decide
 
 /-- the model's lock discipline for the discipline read off the source (`none` = not one the theorems cover) -/
 def sourceScope : Option LockScope :=
-  if Generated.lockScope = "whole" ∧ Generated.lockCtor = "RLock()" ∧ Generated.lockAssignments = 1 then
+  if Generated.lockScope = "whole" ∧ Generated.lockCtor = "RLock()" ∧ Generated.lockAssignments = 1 ∧
+      Generated.clientLockScope = "whole" ∧ Generated.clientLockCtor = "RLock()" ∧
+      Generated.clientLockAssignments = 1 then
     some .whole
   else none
 
 theorem source_scope_is_whole : sourceScope.isSome = true ∧ ∀ sc, sourceScope = some sc → sc = .whole := by
+  have g := generated_lock_scope
   have h : sourceScope = some .whole := by
     unfold sourceScope
-    rw [if_pos ⟨generated_lock_scope.1, generated_lock_scope.2.1, generated_lock_scope.2.2.1⟩]
+    rw [if_pos ⟨g.1, g.2.1, g.2.2.1, g.2.2.2.2.2.2.1, g.2.2.2.2.2.2.2.1, g.2.2.2.2.2.2.2.2.1⟩]
   rw [h]
   exact ⟨rfl, fun sc e => by cases e; rfl⟩
 
-/-! ### what the whole-transaction lock gives on ANY client (connected or not when the threads start) -/
+/-! ### the property under the shipped discipline, for ANY client (connected or not when the threads start) -/
 
 /-- `mutual_exclusion`: in every reachable state at most one thread is between its send and the end of its receive -/
 theorem mutual_exclusion (scope : LockScope) (hs : scope = .whole) (reqs : Nat → List Req) (connected : Bool)
     (sched : List Nat) : Spec.Exclusive (runSched scope (init reqs connected) sched) := by
   subst hs
-  have hi := invG_reachable reqs connected sched
+  have hi := inv_reachable reqs connected sched
   intro t u ht hu
   have key : ∀ v, ((runSched .whole (init reqs connected) sched).threads v).inFlight = true →
       (runSched .whole (init reqs connected) sched).locks 0 = some (v, 1) := by
     intro v hv
-    cases outsideG_or_holder hi v with
+    cases outside_or_holder hi v with
     | inr h => exact h.1
     | inl ho =>
       exfalso
       cases ho with
       | inl h0 => simp [Thread.inFlight, h0] at hv
-      | inr hk =>
-        obtain ⟨k, hk⟩ := hk
-        cases hk with
-        | inl hk => simp [Thread.inFlight, hk] at hv
-        | inr hk => simp [Thread.inFlight, hk] at hv
+      | inr hk => obtain ⟨k, hk⟩ := hk; simp [Thread.inFlight, hk] at hv
   have h1 := key t ht
   rw [key u hu] at h1
   cases h1
   rfl
+
+theorem istage_wire {sh : Shared} {t : Nat} {th : Thread} (h : IStage sh t th) :
+    Spec.contiguous sh.wire = true := by
+  cases h with
+  | send2 k h hf hfr hc hp hs hb hw =>
+    obtain ⟨w, hw1, hw2⟩ := hw
+    rw [hw2]; exact pairs_snoc1 w _ hw1 rfl
+  | tid k h q => exact pairs_contiguous _ q.2.2.2
+  | connect k h q => exact pairs_contiguous _ q.2.2.2
+  | send1 k h q => exact pairs_contiguous _ q.2.2.2
+  | waiting k h hf hp hs hb hw => exact pairs_contiguous _ hw
+  | recv2 h hh hp hs hb hw => exact pairs_contiguous _ hw
+  | process h hr q => exact pairs_contiguous _ q.2.2.2
+  | release h q => exact pairs_contiguous _ q.2.2.2
+
+theorem stage_wire {sh : Shared} {sock : Option Nat} {nc : Nat} {m : Option (Nat × Nat)} {t : Nat} {th : Thread}
+    (h : Stage sh sock nc m t th) : Spec.contiguous sh.wire = true := by
+  cases h with
+  | pre k h q => exact pairs_contiguous _ q.2.2.2
+  | opening k h q => exact pairs_contiguous _ q.2.2.2
+  | acq k h q => exact pairs_contiguous _ q.2.2.2
+  | inner hs hm st => exact istage_wire st
+  | crel h q => exact pairs_contiguous _ q.2.2.2
 
 /-- `frames_contiguous`: the chunks on the transport are whole frames, (header, rest) by one thread to one
     connection with nothing of another thread in between -/
 theorem frames_contiguous (scope : LockScope) (hs : scope = .whole) (reqs : Nat → List Req) (connected : Bool)
     (sched : List Nat) : Spec.contiguous (runSched scope (init reqs connected) sched).wire = true := by
   subst hs
-  have hi := invG_reachable reqs connected sched
+  have hi := inv_reachable reqs connected sched
   cases hl : (runSched .whole (init reqs connected) sched).locks 0 with
-  | none => exact pairs_contiguous _ (hi.free hl).1
-  | some p => exact (hi.held p.1 p.2 hl).2.1.wire_contiguous
+  | none => exact pairs_contiguous _ (hi.free hl).1.2.2.2
+  | some p => exact stage_wire (hi.held p.1 p.2 hl).2.1
+
+/-- `own_reply`: every completed transaction returned the reply built for its own request — the caller's transaction
+    id, its unit, the registers (or exception) the peer sends for exactly that request; cold client included -/
+theorem own_reply (scope : LockScope) (hs : scope = .whole) (reqs : Nat → List Req) (connected : Bool)
+    (sched : List Nat) (t : Nat) :
+    ∀ x ∈ ((runSched scope (init reqs connected) sched).threads t).results, Spec.OwnReply x := by
+  subst hs
+  exact ((inv_reachable reqs connected sched).ok t).served
 
 /-- no result lost or duplicated: the completed transactions of a thread are, in order, an initial part of the
     requests it was given (one result each) -/
@@ -89,21 +122,42 @@ theorem results_in_request_order (scope : LockScope) (hs : scope = .whole) (reqs
     (connected : Bool) (sched : List Nat) (t : Nat) :
     ((runSched scope (init reqs connected) sched).threads t).results.map (·.1) <+: reqs t := by
   subst hs
-  have h := (invG_reachable reqs connected sched).cons t
+  have h := ((inv_reachable reqs connected sched).ok t).conserve
   unfold Conserved at h
   rw [List.append_assoc] at h
   exact ⟨_, h⟩
 
-/-- a finished thread has exactly one result per request, in order -/
-theorem finished_one_result_each (scope : LockScope) (hs : scope = .whole) (reqs : Nat → List Req)
+/-- a finished thread has one own reply per request, in order: nothing lost, duplicated or swapped -/
+theorem finished_all_served (scope : LockScope) (hs : scope = .whole) (reqs : Nat → List Req)
     (connected : Bool) (sched : List Nat) (t : Nat)
     (hd : ((runSched scope (init reqs connected) sched).threads t).done = true) :
-    ((runSched scope (init reqs connected) sched).threads t).results.map (·.1) = reqs t := by
+    Spec.AllServed reqs (runSched scope (init reqs connected) sched) t := by
+  refine ⟨?_, own_reply scope hs reqs connected sched t⟩
   subst hs
-  have h := (invG_reachable reqs connected sched).cons t
+  have h := ((inv_reachable reqs connected sched).ok t).conserve
   unfold Conserved at h
   simp only [Thread.done, Bool.and_eq_true, List.isEmpty_iff] at hd
   simpa [curPending, hd.1, hd.2] using h
+
+/-- only one connection ever exists: `client.socket` is connection 0 or (before the first connect) nothing; nobody
+    ever replaces it -/
+theorem connection_never_replaced (scope : LockScope) (hs : scope = .whole) (reqs : Nat → List Req)
+    (connected : Bool) (sched : List Nat) :
+    (runSched scope (init reqs connected) sched).sock = some 0 ∨
+    ((runSched scope (init reqs connected) sched).sock = none ∧
+      (runSched scope (init reqs connected) sched).nextConn = 0) := by
+  subst hs
+  have hi := inv_reachable reqs connected sched
+  cases hl : (runSched .whole (init reqs connected) sched).locks 0 with
+  | none => exact (hi.free hl).2.1
+  | some p =>
+    have hst := (hi.held p.1 p.2 hl).2.1
+    cases hst with
+    | pre k h q hso hm => exact hso
+    | opening k h q hso hm => exact Or.inr hso
+    | acq k h q hso hm => exact Or.inl hso
+    | inner hso hm st => exact Or.inl hso
+    | crel h q hso hm => exact Or.inl hso
 
 /-- `no_deadlock` (1): in every reachable state, if some thread has not finished then some thread can move -/
 theorem no_deadlock (scope : LockScope) (hs : scope = .whole) (reqs : Nat → List Req) (connected : Bool)
@@ -111,7 +165,7 @@ theorem no_deadlock (scope : LockScope) (hs : scope = .whole) (reqs : Nat → Li
     (hnd : ((runSched scope (init reqs connected) sched).threads t).done = false) :
     ∃ u, runnable scope (runSched scope (init reqs connected) sched) u = true := by
   subst hs
-  exact exists_runnable (invG_reachable reqs connected sched) t hnd
+  exact exists_runnable (inv_reachable reqs connected sched) t hnd
 
 /-- `no_deadlock` (2): every move is progress — a thread that can move has strictly less left to do afterwards, and
     nobody else's remaining work changes (any lock discipline) -/
@@ -122,18 +176,18 @@ theorem every_move_is_progress (scope : LockScope) (s : State) (t : Nat) (hr : r
 
 /-- `no_deadlock` (3), fair schedules: if the schedule consists of `k` rounds, every round gives each of the `n`
     threads at least one turn (in any order, with any repetitions) and `k` is at least the total number of operations
-    to perform, then every thread finishes with one result per request -/
+    to perform, then every thread finishes, with one own reply per request in request order -/
 theorem fair_schedule_finishes (scope : LockScope) (hs : scope = .whole) (reqs : Nat → List Req) (connected : Bool)
     (n : Nat) (hn : ∀ t, n ≤ t → reqs t = []) (rounds : List (List Nat)) (hc : ∀ r ∈ rounds, Covers n r)
     (hk : totalWork scope (init reqs connected) n ≤ rounds.length) (t : Nat) :
     ((runSched scope (init reqs connected) rounds.flatten).threads t).done = true ∧
-    ((runSched scope (init reqs connected) rounds.flatten).threads t).results.map (·.1) = reqs t := by
+    Spec.AllServed reqs (runSched scope (init reqs connected) rounds.flatten) t := by
   subst hs
-  have hd := fair_rounds_finish (invG_init reqs connected) n
+  have hd := fair_rounds_finish (inv_init reqs connected) n
     (fun v hv => by simp [init, Thread.done, hn v hv]) rounds hc hk t
-  exact ⟨hd, finished_one_result_each .whole rfl reqs connected _ t hd⟩
+  exact ⟨hd, finished_all_served .whole rfl reqs connected _ t hd⟩
 
-/-- re-entrant acquisition by the holder never blocks (the lock is an `RLock`): the holder can always take its lock
+/-- re-entrant acquisition by the holder never blocks (both locks are `RLock`s): the holder can always take its lock
     again, whatever the depth -/
 theorem reentrant_acquire_never_blocks (locks : Nat → Option (Nat × Nat)) (k t d : Nat)
     (h : locks k = some (t, d)) :
@@ -149,35 +203,18 @@ theorem reentrant_release_restores (locks : Nat → Option (Nat × Nat)) (k t d 
   have hne : ¬ (d + 1 ≤ 1) := by omega
   simp [lockRelease, upd, hne]
 
-/-- a thread whose next operation is the acquisition of a lock it already holds can move -/
+/-- a thread whose next operation is the acquisition of a lock it already holds can move (manager lock, client lock) -/
 theorem holder_can_reacquire (scope : LockScope) (s : State) (t k d : Nat) (ops : List Op)
     (hops : (s.threads t).ops = .acquire :: ops) (hk : lockKey scope (s.threads t).cur = some k)
     (hl : s.locks k = some (t, d)) : runnable scope s t = true := by
   simp [runnable, hops, hk, hl]
 
-/-! ### every caller gets the reply to its own request — on a client connected before the threads start -/
+theorem holder_can_reacquire_client (scope : LockScope) (s : State) (t d : Nat) (ops : List Op)
+    (hops : (s.threads t).ops = .cacquire :: ops) (hl : s.locks clientKey = some (t, d)) :
+    runnable scope s t = true := by
+  simp [runnable, hops, hl]
 
-/-- `own_reply` (partial: `connected = true`): every completed transaction returned the reply built for its own
-    request — the caller's transaction id, its unit, the registers (or exception) the peer sends for exactly that
-    request -/
-theorem own_reply_partial (scope : LockScope) (hs : scope = .whole) (reqs : Nat → List Req) (sched : List Nat)
-    (t : Nat) : ∀ x ∈ ((runSched scope (init reqs true) sched).threads t).results, Spec.OwnReply x := by
-  subst hs
-  exact ((inv_reachable reqs sched).ok t).served
-
-/-- a finished thread has one own reply per request, in order: nothing lost, duplicated or swapped -/
-theorem finished_all_served_partial (scope : LockScope) (hs : scope = .whole) (reqs : Nat → List Req)
-    (sched : List Nat) (t : Nat) (hd : ((runSched scope (init reqs true) sched).threads t).done = true) :
-    Spec.AllServed reqs (runSched scope (init reqs true) sched) t :=
-  ⟨finished_one_result_each scope hs reqs true sched t hd, own_reply_partial scope hs reqs sched t⟩
-
-/-- on a connected client nobody ever opens a second connection: the socket in use stays connection 0 -/
-theorem connected_stays_connected (scope : LockScope) (hs : scope = .whole) (reqs : Nat → List Req)
-    (sched : List Nat) : (runSched scope (init reqs true) sched).sock = some 0 := by
-  subst hs
-  exact (inv_reachable reqs sched).sock
-
-/-! ### the whole property as one statement; where it fails -/
+/-! ### the whole property as one statement -/
 
 /-- the property for a lock discipline and a client: on every run, mutual exclusion, contiguous frames, own replies -/
 def Serialised (scope : LockScope) (connected : Bool) : Prop :=
@@ -186,59 +223,64 @@ def Serialised (scope : LockScope) (connected : Bool) : Prop :=
     Spec.contiguous (runSched scope (init reqs connected) sched).wire = true ∧
     ∀ t, ∀ x ∈ ((runSched scope (init reqs connected) sched).threads t).results, Spec.OwnReply x
 
-/-- the full statement of C15 for the lock discipline of the source: serialised whatever the state of the client
-    when the threads start -/
-def C15_full : Prop := ∀ connected, Serialised .whole connected
+/-- the full statement of C15: the shipped discipline serialises whatever the state of the client when the threads
+    start (false before the repair of connect-outside-lock: see `connect_race_counterexample`) -/
+theorem C15_full : ∀ connected, Serialised .whole connected :=
+  fun connected reqs sched => ⟨mutual_exclusion _ rfl reqs connected sched,
+    frames_contiguous _ rfl reqs connected sched, fun t => own_reply _ rfl reqs connected sched t⟩
 
-/-- the part that holds: the client is connected before the threads start -/
-theorem C15_partial : Serialised .whole true :=
-  fun reqs sched => ⟨mutual_exclusion _ rfl reqs true sched, frames_contiguous _ rfl reqs true sched,
-    fun t => own_reply_partial _ rfl reqs sched t⟩
-
-/-- the discipline the source has serialises a connected client -/
-theorem source_serialised : ∀ sc, sourceScope = some sc → Serialised sc true := by
+/-- the discipline the source has serialises every client -/
+theorem source_serialised : ∀ sc, sourceScope = some sc → ∀ connected, Serialised sc connected := by
   intro sc h
   rw [source_scope_is_whole.2 sc h]
-  exact C15_partial
+  exact C15_full
+
+/-! ### disciplines that do not serialise (named mutants) -/
 
 /-- two threads, different units, different quantities -/
 def cexReqs : Nat → List Req := fun i =>
   if i = 0 then [⟨1, 100, 2, 0⟩] else if i = 1 then [⟨2, 200, 3, 0⟩] else []
 
-/-- cold start under the whole-transaction lock.  Both threads find no socket in the unlocked `connect` of
-    `BaseModbusClient.execute`; thread 0 opens connection 0, takes the lock, sends; thread 1's connection attempt
-    completes (connection 1 replaces `client.socket`); thread 0 reads from connection 1, where nothing arrives -/
-def cexRace : List Nat := [0, 1, 0, 0, 0, 0, 0, 0, 1, 0, 0, 0]
+/-- the code before the repair (`connectOutside`: `connect()` before any lock is taken), cold client.  Both threads
+    (after turning to their request) find no socket in the unlocked connect check; thread 0 opens connection 0, takes
+    the manager lock, sends; thread 1's connection attempt completes (connection 1 replaces `client.socket`);
+    thread 0 reads from connection 1, where nothing arrives -/
+def cexRace : List Nat := [0, 1, 0, 1, 0, 0, 0, 0, 0, 0, 1, 0, 0, 0]
 
-/-- the defect: the peer answered thread 0's request (the reply sits unread on connection 0), yet `execute` handed
-    thread 0 a `ModbusIOException`.  Transactions were never concurrent and the frame is whole. -/
+/-- the repaired defect connect-outside-lock: the peer answered thread 0's request (the reply sits unread on
+    connection 0), yet `execute` handed thread 0 a `ModbusIOException`.  Transactions were never concurrent and the
+    frame is whole. -/
 theorem connect_race_counterexample :
-    ((runSched .whole (init cexReqs false) cexRace).threads 0).results =
+    ((runSched .connectOutside (init cexReqs false) cexRace).threads 0).results =
       [(⟨1, 100, 2, 0⟩, 1, .err .modbusIO)] ∧
-    (runSched .whole (init cexReqs false) cexRace).stream 0 = replyOf 1 ⟨1, 100, 2, 0⟩ ∧
-    (runSched .whole (init cexReqs false) cexRace).sock = none ∧
+    (runSched .connectOutside (init cexReqs false) cexRace).stream 0 = replyOf 1 ⟨1, 100, 2, 0⟩ ∧
+    (runSched .connectOutside (init cexReqs false) cexRace).sock = none ∧
     ¬ Spec.OwnReply (⟨1, 100, 2, 0⟩, 1, .err .modbusIO) := by decide +kernel
 
-theorem C15_full_counterexample : ¬ C15_full := by
+theorem connectOutside_not_serialised : ¬ Serialised .connectOutside false := by
   intro h
-  have h1 := (h false cexReqs cexRace).2.2 0 (⟨1, 100, 2, 0⟩, 1, .err .modbusIO)
+  have h1 := (h cexReqs cexRace).2.2 0 (⟨1, 100, 2, 0⟩, 1, .err .modbusIO)
     (by rw [connect_race_counterexample.1]; exact List.mem_singleton.2 rfl)
   exact connect_race_counterexample.2.2.2 h1
 
-/-! ### lock disciplines that do not serialise (client connected) -/
-
-/-- both threads up to and including their first write: connect, acquire, tid, connect, send₁ -/
-def cexInterleaved : List Nat := [0, 0, 0, 0, 0, 1, 1, 1, 1, 1]
-
-/-- thread 0 sends its frame, thread 1 sends its frame, then thread 1 receives first -/
-def cexSwapped : List Nat := [0, 0, 0, 0, 0, 0, 1, 1, 1, 1, 1, 1, 1, 1, 1, 0, 0, 0]
+/-- the very same schedule under the shipped discipline: thread 1 is parked on the client lock, nothing is lost -/
+theorem connect_race_repaired :
+    ((runSched .whole (init cexReqs false) (cexRace ++ [0, 0, 0, 0])).threads 0).results =
+      [(⟨1, 100, 2, 0⟩, 1, .ok 1 1 (.regs [100, 101]))] := by decide +kernel
 
 theorem not_exclusive_of (s : State) (h0 : (s.threads 0).inFlight = true) (h1 : (s.threads 1).inFlight = true) :
     ¬ Spec.Exclusive s := fun h => absurd (h 0 1 h0 h1) (by decide)
 
-/-- without a lock there is no acquire step: connect, tid, connect, send₁ -/
-def cexInterleavedNone : List Nat := [0, 0, 0, 0, 1, 1, 1, 1]
-def cexSwappedNone : List Nat := [0, 0, 0, 0, 0, 1, 1, 1, 1, 1, 1, 1, 1, 0, 0, 0]
+/-- (client connected) both threads up to and including their first write: next request, connect check, acquire,
+    tid, connect, send₁ -/
+def cexInterleaved : List Nat := [0, 0, 0, 0, 0, 0, 1, 1, 1, 1, 1, 1]
+
+/-- thread 0 sends its frame, thread 1 sends its frame, then thread 1 receives first -/
+def cexSwapped : List Nat := [0, 0, 0, 0, 0, 0, 0, 1, 1, 1, 1, 1, 1, 1, 1, 1, 1, 0, 0, 0]
+
+/-- without a lock there is no acquire step: next request, connect check, tid, connect, send₁ -/
+def cexInterleavedNone : List Nat := [0, 0, 0, 0, 0, 1, 1, 1, 1, 1]
+def cexSwappedNone : List Nat := [0, 0, 0, 0, 0, 0, 1, 1, 1, 1, 1, 1, 1, 1, 1, 0, 0, 0]
 
 /-- no lock: the two headers are adjacent on the wire, both transactions are in flight, and when thread 1 receives
     first it is handed thread 0's reply, which its framer drops (wrong unit): the reply is lost -/
@@ -252,7 +294,8 @@ theorem none_counterexample :
 theorem none_not_serialised : ¬ Serialised .none true := fun h =>
   not_exclusive_of _ none_counterexample.1 none_counterexample.2.1 (h cexReqs cexInterleavedNone).1
 
-/-- one lock per unit id (the seeded change): two threads addressing different units hold different locks -/
+/-- one manager lock per unit id and no client lock (the seeded change on the code before the repair): two threads
+    addressing different units hold different locks -/
 theorem perKey_counterexample :
     ((runSched (.perKey (·.unit)) (init cexReqs true) cexInterleaved).threads 0).inFlight = true ∧
     ((runSched (.perKey (·.unit)) (init cexReqs true) cexInterleaved).threads 1).inFlight = true ∧
@@ -276,8 +319,8 @@ theorem perKey_swap_counterexample :
       [(⟨0, 100, 2, 0⟩, 1, .ok 2 255 (.regs [200, 201, 202]))] ∧
     ¬ Spec.OwnReply (⟨255, 200, 3, 0⟩, 2, .ok 1 0 (.regs [100, 101])) := by decide +kernel
 
-/-- a lock around the send only keeps the frames whole but not the transactions apart -/
-def cexSendOnly : List Nat := [0, 0, 0, 0, 0, 0, 0, 1, 1, 1, 1, 1]
+/-- a manager lock around the send only keeps the frames whole but not the transactions apart -/
+def cexSendOnly : List Nat := [0, 0, 0, 0, 0, 0, 0, 0, 0, 1, 1, 1, 1, 1, 1]
 
 theorem sendOnly_counterexample :
     ((runSched .sendOnly (init cexReqs true) cexSendOnly).threads 0).inFlight = true ∧
@@ -288,17 +331,18 @@ theorem sendOnly_not_serialised : ¬ Serialised .sendOnly true := fun h =>
 
 /-! ### non-vacuity -/
 
-/-- a run under the whole lock in which a thread is parked on the lock, then everybody finishes with own replies -/
+/-- a run under the shipped discipline on a COLD client in which a thread is parked on the client lock, then everybody
+    finishes with own replies over the one connection -/
 example :
-    let s := runSched .whole (init cexReqs true) [0, 0, 0, 0, 0, 1, 1, 1, 0, 0, 0, 0, 0, 1, 1, 1, 1, 1, 1, 1, 1, 1]
-    runnable .whole (runSched .whole (init cexReqs true) [0, 0, 0, 0, 0, 1, 1]) 1 = false ∧
-    (s.threads 0).done = true ∧ (s.threads 1).done = true ∧
+    let s := runSched .whole (init cexReqs false) (List.replicate 14 0 ++ List.replicate 13 1)
+    runnable .whole (runSched .whole (init cexReqs false) [0, 0, 1]) 1 = false ∧
+    (s.threads 0).done = true ∧ (s.threads 1).done = true ∧ s.sock = some 0 ∧ s.nextConn = 1 ∧
     (s.threads 0).results = [(⟨1, 100, 2, 0⟩, 1, .ok 1 1 (.regs [100, 101]))] ∧
     (s.threads 1).results = [(⟨2, 200, 3, 0⟩, 2, .ok 2 2 (.regs [200, 201, 202]))] := by decide +kernel
 
 /-- the hypotheses of `fair_schedule_finishes` are satisfiable: round robin, as many rounds as operations -/
-example : (∀ t, 2 ≤ t → cexReqs t = []) ∧ totalWork .whole (init cexReqs false) 2 ≤ 30 ∧
-    (∀ r ∈ List.replicate 30 [0, 1], Covers 2 r) := by
+example : (∀ t, 2 ≤ t → cexReqs t = []) ∧ totalWork .whole (init cexReqs false) 2 ≤ 40 ∧
+    (∀ r ∈ List.replicate 40 [0, 1], Covers 2 r) := by
   refine ⟨?_, by decide, ?_⟩
   · intro t ht
     have h0 : ¬ t = 0 := by omega
